@@ -6,7 +6,8 @@ ID = 'C15'
 LEVEL = 'exploration'
 RULE = ('diffs of code snippets in 18 languages x pairs of syntax themes of the same light/dark class (and "none") x hunk style '
         'slots randomly with/without the "syntax" foreground x unified/side-by-side; cell-by-cell comparison of the two runs; '
-        'plus the same diff under two file names of the same kind; distinct = (language, theme pair, which slots are syntax, '
+        'plus the same diff under two file names of the same kind; plus the same section (git or plain "diff -u" form, 0..3 context lines) '
+        'between two different pairs of neighbouring sections in other languages, whose rows must not change; distinct = (language, theme pair, which slots are syntax, '
         'view, sub-check); non-trivial = at least one cell differs in foreground between the two themes (theme check) / '
         'diff has highlighted cells (rename check)')
 ASSUMPTIONS = ['style slots are recognised by reserved background colours']
@@ -24,10 +25,12 @@ def plan(ctx):
         items.append(('theme', engine.stable_hash((ctx.seed, 'c15t', i))))
     for i in range(ctx.n(1200, 20000)):
         items.append(('rename', engine.stable_hash((ctx.seed, 'c15r', i))))
+    for i in range(ctx.n(1200, 20000)):
+        items.append(('neighbour', engine.stable_hash((ctx.seed, 'c15n', i))))
     return items
 
 
-def make_diff(rng, lang, name):
+def make_diff(rng, lang, name, context=None, plain=False):
     src = list(snippets.SNIPPETS[lang])
     new = list(src)
     for _ in range(rng.randint(1, 3)):
@@ -40,9 +43,11 @@ def make_diff(rng, lang, name):
         elif len(new) > 2:
             del new[k]
     import difflib
-    body = list(difflib.unified_diff(src, new, 'a/' + name, 'b/' + name, lineterm='', n=rng.choice([1, 3])))
+    body = list(difflib.unified_diff(src, new, 'a/' + name, 'b/' + name, lineterm='', n=rng.choice([1, 3]) if context is None else context))
     if not body:
         return None
+    if plain:
+        return body          # concatenated "diff -u" output / a patch file: sections start at their "--- " line
     return ['diff --git a/%s b/%s' % (name, name), 'index 1111111..2222222 100644'] + body
 
 
@@ -97,6 +102,23 @@ def run_item(item):
         a = runner.run_delta(gen.to_args(o1), data)
         b = runner.run_delta(gen.to_args(o2), data)
         label = (t1, t2)
+    elif kind == 'neighbour':
+        # the same section between two different pairs of neighbouring sections (other languages): its rows may not change
+        plain = rng.random() < 0.5
+        ctxlines = rng.choice([0, 0, 1, 3])
+        name = rng.choice(names)
+        mid = make_diff(rng, lang, name, ctxlines, plain)
+        others = [l for l in sorted(snippets.SNIPPETS) if l != lang]
+        nb = []
+        for _ in range(4):
+            lo = rng.choice(others)
+            nb.append(make_diff(rng, lo, rng.choice(snippets.NAMES[lo]), ctxlines, plain))
+        if mid is None or any(x is None for x in nb):
+            return inconclusive('empty diff')
+        opts['--syntax-theme'] = rng.choice(themes)
+        a = runner.run_delta(gen.to_args(opts), ('\n'.join(nb[0] + mid + nb[1]) + '\n').encode())
+        b = runner.run_delta(gen.to_args(opts), ('\n'.join(nb[2] + mid + nb[3]) + '\n').encode())
+        label = ('plain' if plain else 'git', ctxlines)
     else:
         n1, n2 = rng.sample(names, 2) if len(names) >= 2 else (names[0], names[0])
         # identical edit for both names
@@ -123,6 +145,30 @@ def run_item(item):
 
     def bad(key, what, exp, obs):
         o = violated('c15:' + key, what, exp, obs, run=b, counters=counters, sets=sets)
+        o['executions'] = 2
+        return o
+    if kind == 'neighbour':
+        def middle(rws):
+            idx = [i for i, r in enumerate(rws) if rows.classify(r).kind == 'file']
+            return rws[idx[1]:idx[2]] if len(idx) == 3 else None
+        ma, mb = middle(ra), middle(rb)
+        if ma is None or mb is None:
+            return bad('neighbour:sections', 'three file sections were given, the output does not show three file headers', 3, 'see run')
+        sets['neighbour_formats'] = ['%s/context%d' % label]
+        if len(ma) != len(mb):
+            return bad('neighbour:row-count', 'a section is rendered with different numbers of rows depending on its neighbours', len(ma), len(mb))
+        hl = 0
+        for i, (x, y) in enumerate(zip(ma, mb)):
+            tx = [(c.ch, c.w, c.fg, c.bg, c.attrs) for c in x.cells]
+            ty = [(c.ch, c.w, c.fg, c.bg, c.attrs) for c in y.cells]
+            counters['cells_compared'] += len(tx)
+            hl += sum(1 for c in x.cells if gen.TAG_BY_RGB.get(c.bg) in syn and syn[gen.TAG_BY_RGB.get(c.bg)] and c.fg is not None)
+            if tx != ty:
+                d = next((k for k in range(min(len(tx), len(ty))) if tx[k] != ty[k]), min(len(tx), len(ty)))
+                return bad('neighbour:colouring-depends-on-neighbour', 'row %d of a file section is coloured differently when the neighbouring sections are files of '
+                           'other languages (language is not chosen from the file name alone); %s' % (i, label), repr(tx[d:d + 3]), repr(ty[d:d + 3]))
+        o = held(sig=(kind, lang, label, tuple(sorted(k for k, v in syn.items() if v)), view), nontrivial=hl > 0, counters=counters, sets=sets,
+                 sample={'sub': kind, 'language': lang, 'format': label})
         o['executions'] = 2
         return o
     if len(ra) != len(rb):
